@@ -338,6 +338,13 @@ def main():
         # the child process died (abort, stack overflow, kill) or hung: an input on which processing does not return
         items.append("FAIL %s id=%s implementation process %s while running the plan (last progress marker: case %s)"
                      % (prop if prop != "C01" else "C01", r["progress"], "timed out" if r["rc"] == 124 else "died with status %s" % r["rc"], r["progress"]))
+    # the driver must have consumed every record the harness emitted (a silently skipped record would hide a failure)
+    if r["done"] and r["dstats"]:
+        hh, dd = r["hstats"], r["dstats"]
+        for hk, dk in (("probes", "probes"), ("event_histories", "event_histories"), ("state_histories", "state_histories"), ("display_probes", "display_probes"), ("init_checks", "init_checks")):
+            want = hh.get(hk, 0) + (hh.get("probes_via_parser", 0) if hk == "probes" else 0)
+            if dk in dd and dd.get(dk, 0) != want:
+                broken.append("driver processed %d %s records, the harness emitted %d" % (dd.get(dk, 0), dk, want))
     stmt_kinds = STATEMENT[prop]
     def is_stmt(x):
         if x.startswith("FAIL "):
